@@ -86,6 +86,12 @@ def run(tier):
     for h in sl:
         check_behaviour(ck, conc, loads, h, "slots", per_step=False)
         ck.nontrivial(h[:-1])
+    # PROJECTION probes again with the definition strings people write (upper-case authority names, + parameters)
+    for sp in (["init=EPSG:3857"], ["init=ESRI:102100", "+proj=longlat +datum=WGS84"], ["proj=utm", "zone=15", "ellps=GRS80"]):
+        concp = concretise.Concretiser(seed, strings=sp)
+        for h in sl:
+            if h[-1]["info"]["slot"][2] == "projection":
+                check_behaviour(ck, concp, loads, h, "slots", per_step=False)
     ck.sample({"slot_probe": sl[7][-1]["info"], "text": concretise.assemble(conc.tokens(concretise.with_root(sl[7], docs.root_type(sl[7]))))[0]})
     # (G) walks with per-step posts
     n1 = 300 if quick else 4000
